@@ -40,6 +40,15 @@ func mkCall(c cs) Call {
 	return call
 }
 
+// long argument texts (more than 64 characters each, white space between tokens not counted)
+const (
+	longStringA = `"order 4711 for customer alice was accepted yesterday evening and is now waiting for shipment to Hamburg"`
+	longStringB = `"order 4711 for customer alice was accepted yesterday evening and is now waiting for shipment to Bremen"`
+	longChain   = "fixture.customer.billingAddress.country.isoCode.alpha3.normalizedUpperCaseValue"
+	longCall    = `repo.findByCustomerNameAndOrderStatusOrderedByDate("alice", Status.OPEN).get(0)`
+	fUnqLong    = "unqualified-long-arguments"
+)
+
 const (
 	fUnq     = "unqualified"
 	fRecv    = "receiver"
@@ -65,6 +74,12 @@ var assertForms = map[string][]form{
 		{"Assertions.assertTrue({I} != null);", []cs{{KindAssert, fStatic, "Assertions", "assertTrue", 1}}},
 		{"assertThat({I}).isEqualTo({A});", []cs{{KindAssert, fUnq, "", "assertThat", 1}, {KindAssert, fChained, "assertThat()", "isEqualTo", 1}}},
 		{"assertThat({I}, is({A}));", []cs{{KindAssert, fUnq, "", "assertThat", 2}, {KindAssert, fNested, "", "is", 1}}},
+		// two arguments longer than 64 characters that differ only near their end: not identical
+		{"assertEquals(" + longStringA + ", " + longStringB + ");", []cs{{KindAssert, fUnqLong, "", "assertEquals", 2}}},
+		{"assertSame(" + longChain + ".expectedText, " + longChain + ".actualText);", []cs{{KindAssert, fUnqLong, "", "assertSame", 2}}},
+		{"assertNotEquals(" + longCall + ".getTotal(), " + longCall + ".getDiscountedTotal());", []cs{{KindAssert, fUnqLong, "", "assertNotEquals", 2},
+			{KindPlain, fRecv, "repo", "findByCustomerNameAndOrderStatusOrderedByDate", 2}, {KindPlain, fChained, "findByCustomerNameAndOrderStatusOrderedByDate()", "get", 1}, {KindPlain, fChained, "get()", "getTotal", 0},
+			{KindPlain, fRecv, "repo", "findByCustomerNameAndOrderStatusOrderedByDate", 2}, {KindPlain, fChained, "findByCustomerNameAndOrderStatusOrderedByDate()", "get", 1}, {KindPlain, fChained, "get()", "getDiscountedTotal", 0}}},
 		{"assertThrows(IllegalStateException.class, () -> service.execute());", []cs{{KindAssert, fUnq, "", "assertThrows", 2}, {KindPlain, fNested, "service", "execute", 0}}},
 	},
 	"should": {
@@ -109,6 +124,9 @@ var redundantForms = []form{
 	{"assertSame({I}, {I});", []cs{{KindAssert, fUnq, "", "assertSame", 2}}},
 	{"Assert.assertEquals({S}, {S});", []cs{{KindAssert, fStatic, "Assert", "assertEquals", 2}}},
 	{"checkResult({A}, {A});", []cs{{KindAssert, fUnq, "", "checkResult", 2}}},
+	// genuinely identical arguments longer than 64 characters
+	{"assertEquals(" + longStringA + ", " + longStringA + ");", []cs{{KindAssert, fUnqLong, "", "assertEquals", 2}}},
+	{"assertSame(" + longChain + ".expectedText, " + longChain + ".expectedText);", []cs{{KindAssert, fUnqLong, "", "assertSame", 2}}},
 	{"compare({A}, {A});", []cs{{KindPlain, fUnq, "", "compare", 2}}},
 	{"calc.add({N}, {N});", []cs{{KindPlain, fRecv, "calc", "add", 2}}},
 }
